@@ -189,6 +189,95 @@ func (v *logVault) UpdateAction(ctx context.Context, a *workflow.Action) error {
 	return err
 }
 
+// indexVault models a back end with a separate search index (storage.Recovery contract, e.g. cosmosdb):
+// until Recovery() has been called its Search(Running) still lists the plans in stale (durably terminal)
+// as Running. It records in which order Recovery / Search / Read / Update* were first used.
+type indexVault struct {
+	storage.Vault
+	mu        sync.Mutex
+	stale     []uuid.UUID
+	recovered bool
+	early     []string // calls made before Recovery()
+	order     []string // first occurrence of each kind of call
+	seen      map[string]bool
+}
+
+func (v *indexVault) used(what string) {
+	v.mu.Lock()
+	defer v.mu.Unlock()
+	if !v.recovered && what != "Recovery" {
+		v.early = append(v.early, what)
+	}
+	if !v.seen[what] {
+		v.seen[what] = true
+		v.order = append(v.order, what)
+	}
+}
+
+// Recovery implements storage.Recovery.
+func (v *indexVault) Recovery(ctx context.Context) error {
+	v.used("Recovery")
+	v.mu.Lock()
+	v.recovered = true
+	v.mu.Unlock()
+	return nil
+}
+
+func (v *indexVault) Search(ctx context.Context, f storage.Filters) (chan storage.Stream[storage.ListResult], error) {
+	v.used("Search")
+	in, err := v.Vault.Search(ctx, f)
+	if err != nil {
+		return nil, err
+	}
+	want := false
+	for _, s := range f.ByStatus {
+		if s == workflow.Running {
+			want = true
+		}
+	}
+	v.mu.Lock()
+	var stale []uuid.UUID
+	if !v.recovered && want {
+		stale = append(stale, v.stale...)
+	}
+	v.mu.Unlock()
+	out := make(chan storage.Stream[storage.ListResult], 1)
+	go func() {
+		defer close(out)
+		for r := range in {
+			out <- r
+		}
+		for _, id := range stale {
+			out <- storage.Stream[storage.ListResult]{Result: storage.ListResult{ID: id, State: &workflow.State{Status: workflow.Running}}}
+		}
+	}()
+	return out, nil
+}
+func (v *indexVault) Read(ctx context.Context, id uuid.UUID) (*workflow.Plan, error) {
+	v.used("Read")
+	return v.Vault.Read(ctx, id)
+}
+func (v *indexVault) UpdatePlan(ctx context.Context, p *workflow.Plan) error {
+	v.used("Update")
+	return v.Vault.UpdatePlan(ctx, p)
+}
+func (v *indexVault) UpdateChecks(ctx context.Context, c *workflow.Checks) error {
+	v.used("Update")
+	return v.Vault.UpdateChecks(ctx, c)
+}
+func (v *indexVault) UpdateBlock(ctx context.Context, b *workflow.Block) error {
+	v.used("Update")
+	return v.Vault.UpdateBlock(ctx, b)
+}
+func (v *indexVault) UpdateSequence(ctx context.Context, q *workflow.Sequence) error {
+	v.used("Update")
+	return v.Vault.UpdateSequence(ctx, q)
+}
+func (v *indexVault) UpdateAction(ctx context.Context, a *workflow.Action) error {
+	v.used("Update")
+	return v.Vault.UpdateAction(ctx, a)
+}
+
 // ---------------------------------------------------------------- plugin log
 
 type callLog struct {
@@ -341,6 +430,7 @@ func child(index int, resPath string) {
 	recovery := !r.Chance(0.2)
 	mk := maxAges[r.Weighted(maxAgeW)]
 	fileBacked := r.Chance(0.2)
+	indexed := r.Chance(0.3) // the Vault implements storage.Recovery and has a search index that may be stale
 
 	// ---- phase 1: produce durable images with the real engine on a scratch vault
 	inner1, err := sqlite.New(ctx, "", set.Reg, sqlite.WithInMemory())
@@ -663,8 +753,35 @@ func child(index int, resPath string) {
 		opts[0], opts[1] = opts[1], opts[0]
 		optOrder = "norecovery,age"
 	}
+	var top storage.Vault = lv
+	var iv *indexVault
+	var staleIx []string
+	staleDesc := []int{}
+	if indexed {
+		iv = &indexVault{Vault: lv, seen: map[string]bool{}}
+		// one durably terminal plan of the store (two now and then) is still listed as Running by the index
+		var term []int
+		for j, b := range plansB {
+			switch b.img.State.Status {
+			case workflow.Completed, workflow.Failed, workflow.Stopped:
+				term = append(term, j)
+			}
+		}
+		for k := 0; k < 2 && len(term) > 0; k++ {
+			if k == 1 && !r.Chance(0.25) {
+				break
+			}
+			w := r.Intn(len(term))
+			j := term[w]
+			term = append(term[:w], term[w+1:]...)
+			iv.stale = append(iv.stale, plansB[j].img.ID)
+			staleIx = append(staleIx, core.N(cx.UidIx(plansB[j].img.ID)))
+			staleDesc = append(staleDesc, j)
+		}
+		top = iv
+	}
 	t0 := time.Now()
-	ws2, err := coercion.New(ctx, set.Reg, lv, opts...)
+	ws2, err := coercion.New(ctx, set.Reg, top, opts...)
 	t1 := time.Now()
 	if err != nil {
 		fatal("coercion.New: %v", err)
@@ -724,8 +841,21 @@ func child(index int, resPath string) {
 			nontrivial = true
 		}
 	}
+	vaultKind := 0
+	var callOrder, early []string
+	if iv != nil {
+		iv.mu.Lock()
+		callOrder = append(callOrder, iv.order...)
+		early = append(early, iv.early...)
+		vaultKind = 1
+		if !iv.recovered || len(iv.early) > 0 {
+			vaultKind = 2
+		}
+		iv.mu.Unlock()
+	}
+	hashParts = append(hashParts, fmt.Sprint(vaultKind, staleDesc))
 	term := core.App("Build_case", plancoq.Time(t0), plancoq.Time(t1), core.Z(int64(mk.D)), core.B(recovery),
-		core.List(beforeTerms), core.List(obsTerms))
+		core.List(beforeTerms), core.List(obsTerms), core.Nat(vaultKind), core.List(staleIx))
 	statuses := []string{}
 	for _, d := range descs {
 		statuses = append(statuses, d.Status)
@@ -740,7 +870,7 @@ func child(index int, resPath string) {
 		Coq:        term,
 		Nontrivial: nontrivial,
 		Hash:       core.Hash(hashParts...),
-		Dist:       map[string]any{"plans": len(plansB), "recovery": recovery, "max_age": mk.Name, "file_backed": fileBacked, "statuses": statuses, "new_ms": t1.Sub(t0).Milliseconds(), "slack_ms": t1.Sub(tCraft).Milliseconds(), "stray_writes": stray, "option_order": optOrder},
+		Dist:       map[string]any{"plans": len(plansB), "recovery": recovery, "max_age": mk.Name, "file_backed": fileBacked, "statuses": statuses, "new_ms": t1.Sub(t0).Milliseconds(), "slack_ms": t1.Sub(tCraft).Milliseconds(), "stray_writes": stray, "option_order": optOrder, "indexed_vault": indexed, "stale_index_plans": staleDesc, "vault_call_order": callOrder, "calls_before_recovery": early},
 		Input:      map[string]any{"seed": core.Seed(), "index": index, "max_age_ns": int64(mk.D), "max_age_option_passed": mk.Pass, "recovery": recovery, "file_backed": fileBacked},
 		Observed:   descs,
 	}}
